@@ -614,7 +614,7 @@ def psiListOK (t : Template) : Bool :=
 open Spec.Ts38413 in
 def nameOK (t : Template) : Bool :=
   match roleIdx t .name with
-  | some i => (skeletons t).all fun tm => carriesHole tm ieRANNodeName [0] (.arg i)
+  | some i => (skeletons t).all fun tm => carriesHole tm ieRANNodeName [0] (.argStr i)
   | none => true
 
 open Spec.Ts38413 in
